@@ -67,6 +67,70 @@ NULL = b"null:"
 
 # ----------------------------------------------------------------------------- helpers
 
+class EndlessRead(Exception):
+    """The v4 container reader kept asking an exhausted source for more bytes (it would never return)."""
+
+
+_EOF_LIMIT = 5000
+
+
+def worker_init(tier):
+    """Guards that turn a reader spinning on an exhausted source into an exception (the loop sits in native code and
+    cannot be interrupted otherwise): the IterableFile and the BytesIO the v4 BundleReader wraps its input in."""
+    from breezy import osutils
+    from breezy.bzr.bundle.serializer import v4
+
+    if getattr(v4.osutils, "_c40", False):
+        return
+    real = osutils.IterableFile
+
+    class GuardedIterableFile:
+        _c40 = True
+
+        def __init__(self, iterable):
+            self._f = real(iterable)
+            self._empty = 0
+
+        def read(self, *a):
+            r = self._f.read(*a)
+            if r == b"" and a and a[0]:
+                self._empty += 1
+                if self._empty > _EOF_LIMIT:
+                    raise EndlessRead("read(%r) at end of data asked %d times in a row" % (a[0], self._empty))
+            else:
+                self._empty = 0
+            return r
+
+        def __iter__(self):
+            return iter(self._f)
+
+        def __getattr__(self, name):
+            return getattr(self._f, name)
+
+    class GuardedBytesIO(BytesIO):
+        def read(self, *a):
+            r = BytesIO.read(self, *a)
+            if r == b"" and a and a[0]:
+                self._empty = getattr(self, "_empty", 0) + 1
+                if self._empty > _EOF_LIMIT:
+                    raise EndlessRead("read(%r) at end of data asked %d times in a row" % (a[0], self._empty))
+            else:
+                self._empty = 0
+            return r
+
+    class OsutilsForV4:
+        """breezy.osutils as seen by the v4 serializer module only."""
+
+        _c40 = True
+        IterableFile = GuardedIterableFile
+
+        def __getattr__(self, name):
+            return getattr(osutils, name)
+
+    v4.osutils = OsutilsForV4()
+    v4.BytesIO = GuardedBytesIO
+
+
 def where(e):
     from vf.runner import _where
 
@@ -79,8 +143,13 @@ def attempt(ctx, what, fn, detail=None):
         return True, fn()
     except Exception as e:
         d = dict(detail or {})
-        d["traceback"] = traceback.format_exc()[-2500:]
-        ctx.fail("%s:unexpected:%s@%s" % (what, type(e).__name__, where(e)), repr(e)[:400], d)
+        tb = traceback.format_exc()
+        d["traceback"] = tb[-2500:]
+        key = "%s:unexpected:%s@%s" % (what, type(e).__name__, where(e))
+        if type(e).__name__ == "NoSuchFile" and "_write_delta" in tb and "old_tree.get_file_revision" in tb:
+            # one mechanism wherever a 0.8 / 0.9 bundle is written (write_bundle, format-1 directives)
+            key = "bundle-0.9:write:unchanged-child-of-renamed-directory"
+        ctx.fail(key, repr(e)[:400], d)
         return False, None
 
 
@@ -508,6 +577,11 @@ def judge_tampered_install(case, what, klass, install, twin, carried, detail):
     ctx = case.ctx
     try:
         install()
+    except EndlessRead as e:
+        ctx.count("tamper_judged")
+        ctx.hist("tamper:%s:%s:never-terminates" % (what, klass))
+        ctx.fail("tamper:%s:reader-never-terminates" % what, "reading the tampered payload never ends: %s" % e, detail)
+        out = "never-terminates"
     except Exception as e:
         ctx.count("tamper_judged")
         ctx.count("tamper_detected")
@@ -658,13 +732,16 @@ def tamper_bundles(case, rng, bundles):
         detail = {"base": base.decode(), "target": target.decode(), "bundle_format": bfmt, "repo_format": case.fmt}
         head_end = data.index(b"\n") + 1
         if bfmt == "4":
-            choices = [("anywhere", None)] * 2
+            choices = [("anywhere", None), ("truncated", "cut")]
         else:
             choices = [("anywhere", None), ("sha-line", b"# sha1: "), ("patch-text", b"\n+"), ("message", b"# message:\n#   "), ("revision-id", b"# revision id: ")]
             rng.shuffle(choices)
-            choices = choices[:3]
+            choices = choices[:2] + [("truncated", "cut")]
         for klass, marker in choices:
-            if marker is None:
+            if marker == "cut":
+                pos = rng.randrange(head_end + 1, max(head_end + 2, len(data) - 2))
+                t = data[:pos]
+            elif marker is None:
                 pos = rng.randrange(head_end, len(data))
                 t = flip(data, pos, None, rng)
             else:
@@ -685,7 +762,8 @@ def tamper_bundles(case, rng, bundles):
             if t == data:
                 continue
             twin = case.twin(base)
-            d = dict(detail, position_class=klass, tamper="byte %d %r -> %r" % (pos, data[pos:pos + 1], t[pos:pos + 1]))
+            d = dict(detail, position_class=klass, tamper=("cut after %d of %d bytes" % (pos, len(data))) if marker == "cut" else
+                     "byte %d %r -> %r" % (pos, data[pos:pos + 1], t[pos:pos + 1]))
             judge_tampered_install(case, "bundle-" + bfmt, klass, lambda: install_bundle(open_repo(twin), read_bundle(BytesIO(t))), twin, carried, d)
 
 
@@ -695,6 +773,9 @@ def case(ctx):
     from vf.checks import _c35_hist as H
     from vf.observe import snap_tree, strip_ids
 
+    from vf import gen
+
+    gen._uniq[0] = 0  # content markers restart per case: a case replays alone exactly as it ran inside a shard
     rng = ctx.rng
     thorough = ctx.tier != "quick"
     fmt = rng.choice(FORMATS)
